@@ -92,6 +92,8 @@ func isInsecure(p cPattern) bool {
 // spell renders the Sem as a cors.Config, choosing among equivalent spellings with rng:
 // order, duplicates, header-name case, normalisable method spellings, safelisted extras,
 // `*` mixed with discrete values, 204 as 0 or 204.
+var originStarSpell int
+
 func (s Sem) spell(rng *rand.Rand) *cors.Config {
 	if s.Pass {
 		return nil
@@ -100,13 +102,28 @@ func (s Sem) spell(rng *rand.Rand) *cors.Config {
 	for _, p := range s.Pats {
 		c.Origins = append(c.Origins, p.String())
 	}
-	if s.Any {
-		c.Origins = append(c.Origins, "*")
+	if s.Any && len(s.Pats) > 0 {
+		// `*` among discrete patterns (which it makes redundant): its position alternates deterministically - patterns before the
+		// first `*`, between two of them and after the last one; `*` first; `*` last
+		ps := c.Origins
+		switch originStarSpell % 3 {
+		case 0:
+			c.Origins = append(append(append([]string{ps[0], "*"}, ps[1:len(ps)-min(1, len(ps)-1)]...), "*"), ps[len(ps)-1])
+		case 1:
+			c.Origins = append([]string{"*"}, ps...)
+		case 2:
+			c.Origins = append(append([]string{}, ps...), "*")
+		}
+		originStarSpell++
+	} else {
+		if s.Any {
+			c.Origins = append(c.Origins, "*")
+		}
+		if len(c.Origins) > 1 && rng.Intn(3) == 0 {
+			c.Origins = append(c.Origins, c.Origins[rng.Intn(len(c.Origins))])
+		}
+		rng.Shuffle(len(c.Origins), func(i, j int) { c.Origins[i], c.Origins[j] = c.Origins[j], c.Origins[i] })
 	}
-	if len(c.Origins) > 1 && rng.Intn(3) == 0 {
-		c.Origins = append(c.Origins, c.Origins[rng.Intn(len(c.Origins))])
-	}
-	rng.Shuffle(len(c.Origins), func(i, j int) { c.Origins[i], c.Origins[j] = c.Origins[j], c.Origins[i] })
 	c.Credentialed = s.Cred
 
 	for _, m := range s.Meths {
